@@ -301,6 +301,8 @@ def repo_python_setup():
         if p not in sys.path:
             sys.path.insert(0, p)
     import logging
+    import warnings
+    warnings.filterwarnings("ignore")
     logging.disable(logging.CRITICAL)
 
 
